@@ -63,6 +63,9 @@ def replay_rqs(rqs, seed, frontend="wsgi", prefix="/", backend="tree", principal
                         p = "abcolor" if kind == "addressbook" else "calcolor"
                     ops.append((p, VALUES[(x["p"], x["v"])] if x["set"] else None))
                 s.propupdate(rq["c"], ops)
+            elif op == "Retype":
+                s.propupdate(rq["c"], [("resourcetype", {"calendar": "collection,calendar", "addressbook": "collection,addressbook",
+                                                         "other": "collection"}.get(rq["kind"], "junk"))])
             elif op == "Restart":
                 s.restart(defaults=bool(rq.get("defaults")))
         return s.trace(seed), s.concrete
